@@ -6,6 +6,7 @@ package main
 import (
 	"fmt"
 	"go/types"
+	"os"
 	"path/filepath"
 	"regexp"
 	"runtime/debug"
@@ -118,6 +119,9 @@ func (e *Engine) verifyFunc(fn *ssa.Function, c *Contract) (fres *FuncResult) {
 		// vacuity: the precondition must be satisfiable
 		o := x.addObl("cover:requires-satisfiable", "", "", "true", "true")
 		o.Expect = "sat"
+	}
+	if c != nil {
+		x.structuralObligations(fn, c)
 	}
 	_, _, rr := x.runFunc(fn, args, nil, st, "true", 0, true)
 	if c != nil {
@@ -355,18 +359,34 @@ func dischargeAll(frs []*FuncResult, toSec int, par int, wantAll bool) {
 			retry = append(retry, j)
 		}
 	}
-	if len(retry) > 0 && len(retry) <= 40 {
+	// round 2: 3x the limit, three at a time, another seed; round 3 (at most nine obligations left): 6x the limit, a third seed.
+	// Only a verdict (unsat / sat) ends the rounds for an obligation; a genuine failure therefore costs minutes,
+	// an unlucky search or a loaded machine does not cost a false alarm.
+	rounds := []struct {
+		mult, par int
+		seed      int64
+	}{{3, 3, 7}, {6, 3, 31}}
+	if os.Getenv("GOVC_NORETRY") != "" {
+		rounds = nil // development runs: report the first answer
+	}
+	for ri, rd := range rounds {
+		if len(retry) == 0 || len(retry) > 40 || (ri == 1 && len(retry) > 9) {
+			break
+		}
+		solverSeed.Store(rd.seed)
 		ch2 := make(chan job)
 		var wg2 sync.WaitGroup
-		for i := 0; i < 3; i++ {
+		for i := 0; i < rd.par; i++ {
 			wg2.Add(1)
 			go func() {
 				defer wg2.Done()
 				for j := range ch2 {
 					first := j.o.Result
-					dischargeOne(j.x, j.o, toSec*3, wantAll)
+					dischargeOne(j.x, j.o, toSec*rd.mult, wantAll)
 					if j.o.Result.Status != "unsat" && j.o.Result.Status != "sat" {
 						j.o.Result = first
+					} else {
+						j.o.Retried = rd.mult
 					}
 				}
 			}()
@@ -376,6 +396,14 @@ func dischargeAll(frs []*FuncResult, toSec int, par int, wantAll bool) {
 		}
 		close(ch2)
 		wg2.Wait()
+		solverSeed.Store(0)
+		var still []job
+		for _, j := range retry {
+			if j.o.Result.Status != "unsat" && j.o.Result.Status != "sat" {
+				still = append(still, j)
+			}
+		}
+		retry = still
 	}
 }
 
@@ -460,4 +488,45 @@ func modeName(x *VC) string {
 		return "math (overflow assumed away)"
 	}
 	return x.mode
+}
+
+// structuralObligations: `recovers` (the function itself calls the builtin recover, so that it stops a panic
+// when it runs deferred) and `defers f` (the function defers f in its entry block, i.e. on every path).
+func (x *VC) structuralObligations(fn *ssa.Function, c *Contract) {
+	if c.Recovers {
+		found := false
+		for _, b := range fn.Blocks {
+			for _, ins := range b.Instrs {
+				if call, ok := ins.(*ssa.Call); ok {
+					if bi, ok := call.Call.Value.(*ssa.Builtin); ok && bi.Name() == "recover" {
+						found = true
+					}
+				}
+			}
+		}
+		cond := "false"
+		if found {
+			cond = "true"
+		}
+		if o := x.addObl("recovers", "calls recover() directly", "", "true", cond); o != nil {
+			o.Note = "recover() stops a panic only when called directly by the deferred function"
+		}
+	}
+	for _, d := range c.Defers {
+		found := false
+		if len(fn.Blocks) > 0 {
+			for _, ins := range fn.Blocks[0].Instrs {
+				if df, ok := ins.(*ssa.Defer); ok {
+					if callee := df.Call.StaticCallee(); callee != nil && (callee.RelString(fn.Pkg.Pkg) == d || strings.HasSuffix(callee.String(), d)) {
+						found = true
+					}
+				}
+			}
+		}
+		cond := "false"
+		if found {
+			cond = "true"
+		}
+		x.addObl("defers", d, "", "true", cond)
+	}
 }
